@@ -41,6 +41,10 @@ NoScrub == "NOSCRUB" \in DOMAIN IOEnv
 (* the bytes of every sector are part of the state only when DATA is set in the environment (C08 / C01 design runs):
    they multiply the state space, which the table-level invariants do not need *)
 WithData == "DATA" \in DOMAIN IOEnv
+(* C17 at design level: with META in the environment the alphabet also holds the metadata setters and InvMeta   *)
+(* compares every entry's CLSID, state bits and times with the abstract history (they multiply the state space, *)
+(* so the allocation-level runs leave them out)                                                                *)
+WithMeta == "META" \in DOMAIN IOEnv
 P == INSTANCE CfbPhys WITH SectorLen <- SLEN, MiniLen <- 2, Cutoff <- 8, FatPer <- 4, DirPer <- 2, DifatHdr <- 1,
                            DirCount <- V4, NameLess <- MCLess, NameEq <- MCEq, ModuloPolicy <- OldPolicy, TrackData <- WithData, Scrub <- ~NoScrub
 I == INSTANCE CfbImage WITH Dict <- MCDict, MiniLen <- 2, CutoffLen <- 8, DifatHdrLen <- 1
@@ -64,9 +68,9 @@ ImgSlot(e) ==
         start |-> 0, size |-> 0, blank |-> TRUE,
         t0 |-> TRUE, utf16 |-> TRUE, nbad |-> FALSE, linv |-> FALSE, rinv |-> FALSE, cinv |-> FALSE, size3 |-> 0, szmod |-> 0]
   ELSE [name |-> e.name, nunits |-> (IF e.kind = P!KRoot THEN 10 ELSE 1), nlen |-> (IF e.kind = P!KRoot THEN 22 ELSE 4),
-        term_ok |-> TRUE, pad_zero |-> TRUE, type |-> e.kind, color |-> 1,
-        left |-> e.left, right |-> e.right, child |-> e.child, clsid |-> NilC, bits |-> "00000000",
-        ct |-> <<0, 0, 0>>, mt |-> <<0, 0, 0>>, start |-> e.start, size |-> e.size, blank |-> FALSE,
+        term_ok |-> TRUE, pad_zero |-> TRUE, type |-> e.kind, color |-> e.color,
+        left |-> e.left, right |-> e.right, child |-> e.child, clsid |-> e.clsid, bits |-> e.bits,
+        ct |-> e.ct, mt |-> e.mt, start |-> e.start, size |-> e.size, blank |-> FALSE,
         t0 |-> TRUE, utf16 |-> TRUE, nbad |-> FALSE, linv |-> FALSE, rinv |-> FALSE, cinv |-> FALSE, size3 |-> e.size,
         szmod |-> e.size % 2]
 
@@ -100,6 +104,15 @@ Enabled(m, o) ==
     [] o.op = "write"          -> IsStream(m, o.n) /\ o.a <= m[o.n].size /\ o.b > 0
     [] o.op = "set_len"        -> IsStream(m, o.n)
     [] o.op = "reopen"         -> TRUE
+    [] o.op = "set_clsid"      -> o.n \in DOMAIN m /\ m[o.n].kind = "storage"    \* (on a stream: refused, CfbTree)
+    [] o.op \in {"set_bits", "set_ct", "set_mt"} -> o.n \in DOMAIN m
+
+(* metadata tokens of the tiny instance: one non-default value per field, and the "clock" of operation k *)
+MClsid == "11111111111111111111111111111111"
+MBits  == "000000ff"
+MTime  == <<7, 7, 7>>
+Clock(k) == <<k, 0, 1>>
+NoMeta == [clsid |-> P!NilC, bits |-> P!ZeroBits, ct |-> P!ZT, mt |-> P!ZT]
 
 (* the abstract bytes of a stream: a sequence of tags; every write uses a fresh tag (the number of *)
 (* the operation), set_len pads with the tag 0 = "a zero byte"                                     *)
@@ -107,8 +120,14 @@ Overwrite(b, off, n, t) ==
   [i \in 1..(IF Len(b) > off + n THEN Len(b) ELSE off + n) |-> IF i > off /\ i <= off + n THEN t ELSE b[i]]
 Resized(b, n) == [i \in 1..n |-> IF i <= Len(b) THEN b[i] ELSE 0]
 ApplyModelT(m, o, t) ==
-  CASE o.op = "create_stream"  -> (o.n :> [kind |-> "stream", size |-> 0, bytes |-> <<>>]) @@ m
-    [] o.op = "create_storage" -> (o.n :> [kind |-> "storage", size |-> 0, bytes |-> <<>>]) @@ m
+  CASE o.op = "create_stream"  -> IF o.n \in DOMAIN m THEN [m EXCEPT ![o.n].size = 0, ![o.n].bytes = <<>>]    \* overwritten: the entry (state bits) stays
+                                  ELSE (o.n :> [kind |-> "stream", size |-> 0, bytes |-> <<>>, meta |-> NoMeta]) @@ m
+    [] o.op = "create_storage" -> (o.n :> [kind |-> "storage", size |-> 0, bytes |-> <<>>,
+                                           meta |-> [NoMeta EXCEPT !.ct = Clock(t), !.mt = Clock(t)]]) @@ m
+    [] o.op = "set_clsid"      -> [m EXCEPT ![o.n].meta.clsid = MClsid]
+    [] o.op = "set_bits"       -> [m EXCEPT ![o.n].meta.bits = MBits]
+    [] o.op = "set_ct"         -> IF m[o.n].kind = "stream" THEN m ELSE [m EXCEPT ![o.n].meta.ct = MTime]
+    [] o.op = "set_mt"         -> IF m[o.n].kind = "stream" THEN m ELSE [m EXCEPT ![o.n].meta.mt = MTime]
     [] o.op = "remove"         -> [x \in (DOMAIN m) \ {o.n} |-> m[x]]
     [] o.op = "write"          -> [m EXCEPT ![o.n].size = (IF @ > o.a + o.b THEN @ ELSE o.a + o.b),
                                             ![o.n].bytes = Overwrite(@, o.a, o.b, t)]
@@ -118,7 +137,11 @@ ApplyModel(m, o) == ApplyModelT(m, o, 7)
 
 ApplyPhysT(q, m, o, t) ==
   CASE o.op = "create_stream"  -> P!CreateStream(q, 0, o.n)
-    [] o.op = "create_storage" -> P!CreateStorage(q, 0, o.n)
+    [] o.op = "create_storage" -> P!CreateStorageAt(q, 0, o.n, Clock(t))
+    [] o.op = "set_clsid"      -> P!SetClsid(q, P!FindChild(q, 0, o.n), MClsid)
+    [] o.op = "set_bits"       -> P!SetBits(q, P!FindChild(q, 0, o.n), MBits)
+    [] o.op = "set_ct"         -> P!SetCTime(q, P!FindChild(q, 0, o.n), MTime)
+    [] o.op = "set_mt"         -> P!SetMTime(q, P!FindChild(q, 0, o.n), MTime)
     [] o.op = "remove"         -> IF m[o.n].kind = "stream" THEN P!RemoveStream(q, 0, o.n) ELSE P!RemoveStorage(q, 0, o.n)
     [] o.op = "write"          -> P!WriteDataT(q, P!FindChild(q, 0, o.n), o.a, o.b, t)
     [] o.op = "set_len"        -> P!SetLenT(q, P!FindChild(q, 0, o.n), o.a)
@@ -131,6 +154,7 @@ Alphabet ==
   \cup {Op("write", n, a, b) : n \in Names, a \in {0, 1, 3}, b \in Sizes \ {0}}
   \cup {Op("set_len", n, a, 0) : n \in Names, a \in Sizes}
   \cup {Op("reopen", "", 0, 0)}
+  \cup (IF WithMeta THEN {Op(o, n, 0, 0) : o \in {"set_clsid", "set_bits", "set_ct", "set_mt"}, n \in Names} ELSE {})
 
 (* Cycle templates on the scratch names z, y and on an existing stream *)
 CycleSet(m) ==
@@ -196,6 +220,22 @@ InvAbs ==
        \E i \in live : /\ P!E(p, i).name = n
                        /\ P!E(p, i).kind = (IF model[n].kind = "stream" THEN P!KStream ELSE P!KStorage)
                        /\ P!E(p, i).size = model[n].size
+(* C17 at design level: every entry carries exactly the CLSID, state bits and times of the abstract history -   *)
+(* what a setter stored stays through every later operation on this or any other entry (slot reuse, relinking   *)
+(* on removal, directory growth, overwrite by create_stream, reopen); a new storage has the clock reading of    *)
+(* its creation in both time fields; streams always have a nil CLSID and zero times; freed slots are blank.     *)
+InvMeta ==
+  /\ \A n \in DOMAIN model :
+       LET id == P!FindChild(p, 0, n)  e == P!E(p, id) IN
+       /\ id # -1
+       /\ [clsid |-> e.clsid, bits |-> e.bits, ct |-> e.ct, mt |-> e.mt] = model[n].meta
+       /\ (model[n].kind = "stream" => (e.clsid = P!NilC /\ e.ct = P!ZT /\ e.mt = P!ZT))
+       /\ e.color = P!BLACK
+  /\ \A i \in 1..(Len(p.slots) - 1) : P!E(p, i).kind = P!KUnalloc => P!E(p, i) = P!Unalloc
+  /\ P!MetaOf(P!E(p, 0)) = <<P!BLACK, P!NilC, P!ZeroBits, P!ZT, P!ZT>>
+(* witness for the self-test: some state holds a storage whose four fields were all set *)
+NeverAllMetaSet == \A n \in DOMAIN model : ~(model[n].meta.clsid = MClsid /\ model[n].meta.bits = MBits /\ model[n].meta.ct = MTime /\ model[n].meta.mt = MTime)
+
 (* C08 / C01 at design level: every stream reads back exactly the abstract   *)
 (* bytes - what was written last, and zeros for everything set_len added,    *)
 (* whatever the reused (mini) sectors held before.                           *)
